@@ -10,8 +10,7 @@ from pyvc import contract as pc
 def main():
     pid, name, assign = sys.argv[1], sys.argv[2], json.loads(sys.argv[3])
     for m in sorted((HERE / "contracts").glob("*.py")):
-        if m.name.startswith(pid.lower()) or m.name == "twobody.py":
-            importlib.import_module(f"contracts.{m.stem}")
+        importlib.import_module(f"contracts.{m.stem}")   # all of them: a contract may be registered under a second property from another module
     cdef = [c for c in pc.PROPS[pid] if c.name == name][0]
     if isinstance(assign, list):   # a history: earlier cases of the same contract first, the last one is the case reported
         for a in assign[:-1]:
